@@ -55,7 +55,13 @@ impl Command for CatCommand {
         let last_id: Option<String> = call.get_flag(engine_state, stack, "last-id")?;
         let last_id: Option<scru128::Scru128Id> = last_id
             .as_deref()
-            .map(|s| s.parse().expect("Failed to parse Scru128Id"));
+            .map(|s| {
+                s.parse().map_err(|e| ShellError::TypeMismatch {
+                    err_message: format!("Invalid --last-id: {}", e),
+                    span: call.head,
+                })
+            })
+            .transpose()?;
 
         let frames = self
             .store
